@@ -3,6 +3,7 @@
 import json, os, re
 HERE = os.path.dirname(os.path.dirname(os.path.abspath(__file__)))
 rows = []
+notes = []
 for n in sorted(os.listdir(os.path.join(HERE, "seeded"))):
     mp = os.path.join(HERE, "seeded", n, "meta.json")
     if not os.path.exists(mp):
@@ -15,14 +16,18 @@ for n in sorted(os.listdir(os.path.join(HERE, "seeded"))):
             break
     rows.append(f"| {n} | {m.get('property')} | {(m.get('summary') or '').replace('|', '/')[:230]} | "
                 f"{(m.get('needs_to_manifest') or '').replace('|', '/')[:200]} | "
-                f"{'yes' if m.get('confirmed') else 'NO'} | {', '.join(m.get('caught_by') or []) or '**missed**'} | `{sig[:90]}` |")
-hdr = ("36 changes written by 18 independent sub-agents (each saw only the property record and a scratch worktree, nothing of\n"
+                f"{'yes' if m.get('confirmed') else 'NO'} | {', '.join(m.get('caught_by') or []) or '**missed**'}{' (*)' if m.get('history') else ''} | `{sig[:90]}` |")
+    if m.get("history"):
+        notes.append(f"(*) {n}: {m['history']}")
+hdr = ("Round 1: 36 changes written by 18 independent sub-agents (two per property); round 2: 8 further changes (`*_C`) for eight\n"
+       "properties with the instruction to differ from round 1 and be harder to notice; `own_D*`: each of my own `fix:` commits\n"
+       "un-applied (tools/ownfix.py; their shrunk replays became corpus regression cases).  The agents (each saw only the property record and a scratch worktree, nothing of\n"
        "/verif).  For each one `tools/seedall.py` confirmed in a scratch worktree: the demonstration passes without the patch and\n"
        "fails with it, the repo's 299-test baseline stays green with it, and ran the property's quick check with `VF_REPO` pointing\n"
        "at the patched worktree.  (C13_A and four spline patches were re-based by hand onto the `fix:` commits; the edits are the same.)\n\n"
        "| id | property | change | needs to manifest | confirmed | caught by (quick) | first signature |\n|---|---|---|---|---|---|---|\n")
 p = os.path.join(HERE, "DESIGN.md")
 s = open(p).read()
-s = re.sub(r"<!-- SEED-TABLE-BEGIN -->.*<!-- SEED-TABLE-END -->", "<!-- SEED-TABLE-BEGIN -->\n" + hdr + "\n".join(rows) + "\n<!-- SEED-TABLE-END -->", s, flags=re.S)
+s = re.sub(r"<!-- SEED-TABLE-BEGIN -->.*<!-- SEED-TABLE-END -->", "<!-- SEED-TABLE-BEGIN -->\n" + hdr + "\n".join(rows) + "\n\n" + "\n".join(notes) + "\n<!-- SEED-TABLE-END -->", s, flags=re.S)
 open(p, "w").write(s)
 print(len(rows), "rows")
